@@ -410,6 +410,30 @@ def population(prefix, family, caps=(1, 2)):
     return out
 
 
+def population_blocking(prefix, family, caps=(1, 2), waits=("busy", "block00")):
+    """a consumer blocks in recv next to a clone of itself that consumes whole laps of the ring and leaves;
+    a sender handle is cloned and dropped meanwhile"""
+    out = []
+    k = 0
+    for cap in caps:
+        for wait in waits:
+            t = Topo(family, 1, [1])
+            n = 2 * cap + 1
+            threads = [sends("tx", 101, n, retry=True),
+                       [S("clone", "rx", new="r2"), S("brecv", "rx")],
+                       [S("recv", "r2", retry=True) for _ in range(n - 1)] + [S("drop", "r2")]]
+            out.append(scenario("%s-%s-c%d-%s-%d" % (prefix, family, cap, wait, k), family, False, cap, wait, t.setup,
+                                threads, final_phase(t, {"r2"})))
+            k += 1
+            threads = [[S("clone", "tx", new="t2")] + sends("tx", 101, cap + 1, retry=True),
+                       [S("send", "t2", v=201, retry=True), S("drop", "t2")],
+                       [S("brecv", "rx") for _ in range(cap + 2)]]
+            out.append(scenario("%s-%s-c%d-%s-%d" % (prefix, family, cap, wait, k), family, False, cap, wait, t.setup,
+                                threads, final_phase(t, {"t2"})))
+            k += 1
+    return out
+
+
 # --------------------------------------------------------------------------- C13
 def no_receivers(prefix, family, caps=(1, 2), fut=False):
     out = []
@@ -620,6 +644,24 @@ def with_epoch_pending(scns, family_of=None):
             ph[0] = [pre + list(ph[0][0])]
         else:
             ph = [[pre]] + ph
+        s2["phases"] = ph
+        out.append(s2)
+    return out
+
+
+def with_epoch_late(scns):
+    """variants in which a reclamation cycle starts after the concurrent part (more than 20 sender handles are
+    cloned and dropped at the head of the final phase): what the concurrent part established - for instance
+    that no receiver is left - must still be in force afterwards"""
+    out = []
+    for s in scns:
+        pre = []
+        for i in range(23):
+            pre += [S("clone", "tx", new="l%d" % i), S("drop", "l%d" % i)]
+        s2 = dict(s)
+        s2["name"] = s["name"] + "-late"
+        ph = [list(p) for p in s["phases"]]
+        ph[-1] = [pre + list(ph[-1][0])]
         s2["phases"] = ph
         out.append(s2)
     return out
